@@ -7,7 +7,7 @@ from ..indep import ihex
 from . import common
 
 ID = "C16"
-RULE = ("envelope files of sizes {0,1,2,15,16,17,65535,65536,65537,70000, random < 300 kB, 1 MiB (rare)} x update-candidate-"
+RULE = ("envelope files of sizes {0,1,2,15,16,17,65535,65536,65537,70000, random < 300 kB, 1 MiB, 1 MiB+1, 3 MiB-1 (once per run each)} x update-candidate-"
         "info and DFU partition addresses at / across 64 KiB and 16 MiB boundaries, at 0 and ending exactly at 2^32, "
         "x cache counts 0..16; routes ImageCreator.create_files_for_update, cmd_image.main, CLI in-process, sampled "
         "real CLI and ncs/build.py update. distinct = digest of (size, addresses, caches, content); non-trivial = size "
@@ -84,6 +84,8 @@ def run_case(rec, case):
         size = r.randrange(0, 300000) if r.random() < 0.15 else r.randrange(0, 5000)
     else:
         size = 1 << 20
+    if case["n"] in (3, 5, 8):
+        size = {3: 1 << 20, 5: (1 << 20) + 1, 8: (3 << 20) - 1}[case["n"]]     # beyond 1 MiB in every run
     size = case.get("size", size)
     data = r.randbytes(size)
     dfu = case.get("dfu", pick_addr(r, size))
